@@ -69,7 +69,7 @@ OpSwapInt(w1, w2)   == [m |-> "swapint", w |-> w1, w2 |-> w2]
 OpRollback(w)       == [m |-> "rollback", w |-> w]
 
 (* std::is_nothrow_constructible<T, Arg>: int from anything; a payload only from T&& when its move is noexcept *)
-NothrowCtorFrom(alt, kind) == alt = 0 \/ (kind = "move" /\ NoThrowMove(alt))
+NothrowCtorFrom(alt, kind) == ~Tr(alt) \/ (kind = "move" /\ NoThrowMove(alt))
 
 (* assignment::emplace<I>(args) *)
 PEmplace(w, alt, kind, src, val, un) == <<OpDestroy(w), OpCtor(w, alt, kind, src, val, un), OpSet(w, alt)>>
@@ -98,7 +98,7 @@ DropTmp == <<OpDestroy(3), OpSet(3, -2)>>          \* ~impl() of the local tmp
 PSwap(k, o) ==
     IF idx[k] = -1 /\ idx[o] = -1 THEN <<>>
     ELSE IF idx[k] = idx[o]
-    THEN (IF idx[k] = 0 THEN <<OpSwapInt(k, o)>>
+    THEN (IF ~Tr(idx[k]) THEN <<OpSwapInt(k, o)>>
           ELSE LET j == idx[k] IN                                               \* std::swap(this_alt.value, that_alt.value)
                <<OpTmpCtor(j, "move", k, 0, <<>>),
                  OpAssign(k, j, IF k = o THEN "self" ELSE "move", o, 0, <<OpTmpDtor>>),
@@ -112,7 +112,7 @@ PSwap(k, o) ==
            \o PGenericConstruct(L, 3, "move", DropTmp)                               \* lhs <- move(tmp)
            \o DropTmp
 
-Kind(ak) == IF ak = "ilist" THEN "value" ELSE ak
+Kind(ak) == IF ak \in {"ilist", "multi"} THEN "value" ELSE ak
 HasArg(alt, ak) == Tr(alt) /\ ak \in {"copy", "move"}
 ArgSrc(alt, ak) == IF HasArg(alt, ak) THEN ARG ELSE NONE
 ArgPre(alt, ak, val) == IF HasArg(alt, ak) THEN <<OpArgCtor(alt, val)>> ELSE <<>>
@@ -135,6 +135,13 @@ Plan(c, a) ==
       [] c = "CopyAssign"  -> [body |-> PGenericAssign(a.k, a.o, "copy"), fin |-> <<>>]
       [] c = "MoveAssign"  -> [body |-> PGenericAssign(a.k, a.o, "move"), fin |-> <<>>]
       [] c = "Swap"        -> [body |-> PSwap(a.k, a.o), fin |-> <<>>]
+      [] c = "Nest" /\ Tr(a.alt) ->                                          \* W = variant<int, V>: w1 holds an inner V holding (alt, val)
+            [body |-> <<OpArgCtor(a.alt, a.val)>>                              \* W w1(in_place_index<1>, in_place_index<alt>, val)
+                      \o (CASE a.mode = "copy" -> <<OpTmpCtor(a.alt, "copy", ARG, 0, <<>>), OpTmpDtor, OpArgDtor>>   \* W w2(w1); ~w2; ~w1
+                            [] a.mode = "move" -> <<OpTmpCtor(a.alt, "move", ARG, 0, <<>>), OpTmpDtor, OpArgDtor>>   \* W w2(move(w1))
+                            [] a.mode = "swap" -> <<OpTmpCtor(a.alt, "move", ARG, 0, <<>>), OpArgDtor, OpTmpDtor>>   \* W w2(7); w1.swap(w2): w2 <- move(w1), w1.destroy()
+                            [] OTHER -> <<OpArgDtor>>),                                                            \* nested visit
+             fin |-> <<>>]
       [] OTHER             -> [body |-> <<>>, fin |-> <<>>]                  \* observers run no element operation
 
 ----------------------------------------------------------------------------
@@ -154,7 +161,7 @@ EThrowEv(at, alt, kind) == [op |-> "EThrow", at |-> at, alt |-> alt, kind |-> IF
 NoEff == [idx |-> idx, cell |-> cell, argid |-> argid, tmpid |-> tmpid, fuse |-> fuse, e |-> Tau, expand |-> <<>>]
 
 CtorEff(w, alt, kind, src, val) ==         \* construct_alt into slot w
-    IF alt = 0 THEN [NoEff EXCEPT !.cell = [cell EXCEPT ![w] = [id |-> 0, val |-> IntFrom(src, val)]]]
+    IF ~Tr(alt) THEN [NoEff EXCEPT !.cell = [cell EXCEPT ![w] = [id |-> 0, val |-> IntFrom(src, val)]]]
     ELSE IF Fires(alt, kind) THEN [NoEff EXCEPT !.e = EThrowEv("ctor", alt, kind), !.fuse = 0]
     ELSE [NoEff EXCEPT !.e = ECtorEv(alt, kind, src, Home(w), val),
                        !.cell = [cell EXCEPT ![w] = [id |-> nid + 1, val |-> 0]],
@@ -177,7 +184,7 @@ Eff(op) ==
       [] op.m = "setidx"  -> [NoEff EXCEPT !.idx = [idx EXCEPT ![op.w] = op.i]]
       [] op.m = "gsetidx" -> IF idx[op.src] = -1 THEN NoEff ELSE [NoEff EXCEPT !.idx = [idx EXCEPT ![op.w] = idx[op.src]]]
       [] op.m = "assign"  ->
-            IF op.alt = 0 THEN [NoEff EXCEPT !.cell = [cell EXCEPT ![op.w].val = IntFrom(op.src, op.val)]]
+            IF ~Tr(op.alt) THEN [NoEff EXCEPT !.cell = [cell EXCEPT ![op.w].val = IntFrom(op.src, op.val)]]
             ELSE IF Fires(op.alt, op.kind) THEN [NoEff EXCEPT !.e = EThrowEv("assign", op.alt, op.kind), !.fuse = 0]
             ELSE [NoEff EXCEPT !.e = [op |-> "EAssign", dst |-> cell[op.w].id, src |-> SrcId(op.src), kind |-> op.kind,
                                       val |-> IF op.kind = "value" THEN op.val ELSE ValOfId(SrcId(op.src))],
@@ -209,7 +216,7 @@ Compact(e) ==
 (* what the observers return, computed on the representation *)
 Index(w) == idx[w]                               \* index(): valueless ? npos : index_   (npos written -1)
 HoldsI(w, i) == Index(w) = i                     \* holds_alternative<I>
-ValIn(w) == IF idx[w] = 0 THEN cell[w].val ELSE ValOfId(cell[w].id)
+ValIn(w) == IF ~Tr(idx[w]) THEN cell[w].val ELSE ValOfId(cell[w].id)
 B(x) == IF x THEN 1 ELSE 0
 HoldsMask(w) == B(HoldsI(w, 0)) + 2 * B(HoldsI(w, 1)) + 4 * B(HoldsI(w, 2)) + 8 * B(HoldsI(w, 3))
 AbsSlot(w) ==
@@ -242,10 +249,17 @@ IObsRes(c, a) ==
             IF \E i \in 1..Len(a.ks) : idx[a.ks[i]] = -1 THEN A!Exc("bad_variant_access")
             ELSE LET alts == [i \in 1..Len(a.ks) |-> idx[a.ks[i]]] IN
                  A!Ok([alts |-> alts, vals |-> [i \in 1..Len(a.ks) |-> ValIn(a.ks[i])],
-                       ids |-> [i \in 1..Len(a.ks) |-> cell[a.ks[i]].id], ret |-> Len(a.ks) + A!SumSeq(alts)])
+                       ids |-> [i \in 1..Len(a.ks) |-> cell[a.ks[i]].id],
+                       rv |-> [i \in 1..Len(a.ks) |-> a.rv], alias |-> a.r = 1,
+                       ret |-> IF a.r = 1 THEN ValIn(a.ks[1]) ELSE Len(a.ks) + A!SumSeq(alts)])
       [] c = "XRef" ->      \* xgetter<T&> reads closure<T&>; xgetter<const T&> reads closure<const T&> if the list has it, else closure<T&>
-            LET target == IF a.want = "ref" THEN "ref" ELSE IF a.list = 3 THEN "cref" ELSE "ref" IN
-            IF a.held = target THEN A!Ok([alias |-> TRUE, val |-> a.val]) ELSE A!Exc("bad_variant_access")
+            LET target == IF a.want = "ref" THEN "ref" ELSE IF a.list \in {3, 4} THEN "cref" ELSE "ref" IN
+            IF a.held = target THEN A!Ok([alias |-> TRUE, val |-> a.val, after |-> a.val + a.w]) ELSE A!Exc("bad_variant_access")
+      [] c = "Hash" ->     \* hash_combine(hash(value), hash(index())), 299792458 for valueless: equal iff index and value are equal (element hashes are injective here)
+            A!Ok([same |-> (idx[a.k] = idx[a.o] /\ (idx[a.k] = -1 \/ ValIn(a.k) = ValIn(a.o)))])
+      [] c = "Mono" -> A!Ok([b |-> a.q \in {"eq", "le", "ge", "hash", "default"}])
+      [] c = "Nest" -> A!Ok(A!NestRes(a))
+      [] c = "Up" -> A!ObsRes(c, a)            \* no representation of its own: a scenario on local variants of builtin / std types
 
 ----------------------------------------------------------------------------
 Init ==
@@ -360,5 +374,5 @@ Emit ==
         PrintT("@E@" \o ToJson([p |-> [k \in K |-> A!NoId(v[k])], c |-> call.c, a |-> call.a, f |-> call.fuse,
                                 q |-> [k \in K |-> A!NoId(v'[k])], r |-> ev'.res.exc, ev |-> evs]))
 
-MCCalls == MCCallsOver(Vals)
+MCCalls == MCCallsOver(Vals, TrackedAlts)
 =============================================================================
